@@ -7,7 +7,7 @@
 EXTENDS Naturals, Sequences, FiniteSets, Json, IOUtils, TLC
 Trace == ndJsonDeserialize(IOEnv.TRACE_FILE)
 Ok(b, name) == IF b THEN "ok" ELSE name
-Soft == {"ok", "independent-reader:minus-strand-parts-not-in-biological-order"}
+Soft == {"ok", "independent-reader:minus-strand-parts-not-in-biological-order", "reparse:touching-blocks-merged"}
 FirstBad(seq) == IF \E i \in DOMAIN seq : seq[i] \notin Soft
                  THEN seq[CHOOSE i \in DOMAIN seq : seq[i] \notin Soft /\ \A j \in 1..(i - 1) : seq[j] \in Soft]
                  ELSE IF \E i \in DOMAIN seq : seq[i] # "ok" THEN seq[CHOOSE i \in DOMAIN seq : seq[i] # "ok"] ELSE "ok"
@@ -39,6 +39,22 @@ VGbk(ev) ==
     \* biological order itself, so the listing-order finding above excuses nothing here
     Ok(\A i \in DOMAIN ev[6] : ev[6][i][1] = ev[6][i][2], "translation-equals-independent-translation") >>)
 
+(* Named deviation of BioCantor's GenBank parser (keyed known finding genbank:parser-merges-touching-blocks): the parser
+   intersects the CDS with the transcript interval, and Location.intersection optimises its result, so blocks of the
+   SOURCE that touch (0-bp gap) come back as one block.  MergeTouching predicts exactly that answer; a block list that
+   is neither the source's nor the predicted one is "reparse:structure". *)
+RECURSIVE MergeTouching(_)
+MergeTouching(bs) ==
+  IF Len(bs) <= 1 THEN bs
+  ELSE IF bs[1][2] = bs[2][1] THEN MergeTouching(<<<<bs[1][1], bs[2][2]>>>> \o SubSeq(bs, 3, Len(bs)))
+  ELSE <<bs[1]>> \o MergeTouching(Tail(bs))
+\* structure of a gene = rows <<exonBlocks, cdsBlocks>>...
+RowExact(got, src) == got = src
+RowKnown(got, src) == /\ Len(got) = Len(src)
+                      /\ \A k \in DOMAIN src : got[k] = src[k] \/ got[k] = MergeTouching(src[k])
+StructExact(got, src) == Len(got) = Len(src) /\ \A r \in DOMAIN src : RowExact(got[r], src[r])
+StructKnown(got, src) == Len(got) = Len(src) /\ \A r \in DOMAIN src : RowKnown(got[r], src[r])
+
 (* ["reparse", flavour, source projection, sorted, locusTag, hybrid]; projection = genes as
    <<structure, strand, startFrames, identifiers>>... *)
 VReparse(ev) ==
@@ -50,7 +66,9 @@ VReparse(ev) ==
     \* position-sorted file with unique locus tags comes back in that order from every mode
     Ok(\A k \in DOMAIN ev[8] : ev[8][k] = ev[7], "parser-modes-agree:gene-order"),
     Ok(Len(ev[6][2]) = Len(src), "reparse:gene-count"),
-    Ok(Len(ev[6][2]) # Len(src) \/ \A i \in DOMAIN src : ev[6][2][i][1] = src[i][1], "reparse:structure"),
+    IF Len(ev[6][2]) # Len(src) \/ \A i \in DOMAIN src : StructExact(ev[6][2][i][1], src[i][1]) THEN "ok"
+    ELSE IF \A i \in DOMAIN src : StructKnown(ev[6][2][i][1], src[i][1]) THEN "reparse:touching-blocks-merged"
+    ELSE "reparse:structure",
     Ok(Len(ev[6][2]) # Len(src) \/ \A i \in DOMAIN src : ev[6][2][i][2] = src[i][2], "reparse:strand"),
     IF Len(ev[6][2]) # Len(src) \/ \A i \in DOMAIN src : ev[6][2][i][3] = src[i][3] THEN "ok" ELSE "reparse:start-frame",
     Ok(Len(ev[6][2]) # Len(src) \/ \A i \in DOMAIN src : ev[6][2][i][4] = src[i][4], "reparse:identifiers") >>)
